@@ -1746,14 +1746,20 @@ fn predict<I: SignedInteger>(coefficients: &[i64], qlp_shift: u32, channel: &mut
     for split in coefficients.len()..channel.len() {
         let (predicted, residuals) = channel.split_at_mut(split);
 
-        residuals[0] += I::from_i64(
-            predicted
-                .iter()
-                .rev()
-                .zip(coefficients)
-                .map(|(x, y)| (*x).into() * y)
-                .sum::<i64>()
-                >> qlp_shift,
+        // the prediction is truncated to the sample type before it is added,
+        // so the sum is taken modulo 2^32 (or 2^64 for wide subframes):
+        // a valid 32-bit stream may predict outside the sample range
+        // as long as prediction plus residual is back inside it
+        residuals[0] = I::from_i64(
+            residuals[0].into().wrapping_add(
+                predicted
+                    .iter()
+                    .rev()
+                    .zip(coefficients)
+                    .map(|(x, y)| (*x).into() * y)
+                    .sum::<i64>()
+                    >> qlp_shift,
+            ),
         );
     }
 }
